@@ -36,7 +36,9 @@ LEVEL_TEXT = ("PARTIAL machine-checked proof (Coq, closed under the global conte
               "are run through the API x ending x phase x timeout matrix under a watchdog every run.")
 LEVEL_NOTE = ("Partial by nature: that the OS/threading library delivers notify/set/timeouts, real time "
               "('promptly' = watchdog), the GIL and scheduling are outside the model and only exercised by the "
-              "watchdog matrix.  A local close() is modelled by the actions of the closing thread only (the "
+              "watchdog matrix.  That the thread ending the connection is itself never blocked (e.g. on a "
+              "Channel.lock held by a caller parked behind a re-key) is outside the wake-graph model and is "
+              "exercised by the re-key matrix D.  A local close() is modelled by the actions of the closing thread only (the "
               "transport thread's concurrent epilogue repeats a subset of them).  The identification of source "
               "statements with wake actions is the translator gen/c13.py (trusted, fail-closed); the translator "
               "counts a pre-test only when it sits in the same lock-held region as the Condition wait (a test "
@@ -845,6 +847,132 @@ def run_cell(api, ending, phase, tmo, role="std", pre="fresh", opt="plain"):
         cell.cleanup()
 
 
+GATED = ("shutdown_write", "send", "close", "chan_request", "send_ignore")
+REKEY_STATES = ("own-kexinit-sent", "peer-kexinit-received")
+
+
+def run_rekey_cell(gated, ending, state, role):
+    """The connection ends while a key re-exchange is in flight (never completed) and a user thread is
+    parked inside a call gated by clear_to_send.  The transport must still become inactive, the calls
+    blocked on it (recv on the same channel, recv on another channel, accept) must come back, and so
+    must the parked call -- all well before clear_to_send_timeout (kept at 60 s; watchdog WATCH).
+    Returns (outcome, detail)."""
+    try:
+        cell = Cell("recv", role)
+        x, y = cell.x, cell.y
+        if x is cell.tc:
+            chan2 = cell.tc.open_session(timeout=30)
+            cell.ts.accept(30)
+        else:
+            cell.tc.open_session(timeout=30)
+            chan2 = cell.ts.accept(30)
+        if chan2 is None:
+            raise RuntimeError("second channel not accepted")
+    except Exception as e:   # noqa
+        return "setup-failed", repr(e)
+    try:
+        chan = cell.chan
+        names = ["recv(same channel)", "recv(other channel)", "accept"]
+        calls = [lambda: chan.recv(8), lambda: chan2.recv(8), lambda: x.accept(None)]
+        watchers = [threading.Thread(target=Cell._swallow, args=(c,), daemon=True) for c in calls]
+        for w in watchers:
+            w.start()
+        # the re-key that never completes: the peer sees nothing from now on
+        cell.sy.paused = True
+        starter = x if state == "own-kexinit-sent" else y
+        kx = threading.Thread(target=Cell._swallow, args=(starter.renegotiate_keys,), daemon=True)
+        kx.start()
+        end = time.time() + 10
+        while x.clear_to_send.is_set() and time.time() < end:
+            time.sleep(0.01)
+        if x.clear_to_send.is_set():
+            return "setup-failed", "re-key did not start (%s)" % state
+        g = {"shutdown_write": chan.shutdown_write, "send": lambda: chan.send(b"abc"), "close": chan.close,
+             "chan_request": lambda: chan.exec_command("true"), "send_ignore": lambda: x.send_ignore(8)}[gated]
+        gt = threading.Thread(target=Cell._swallow, args=(g,), daemon=True)
+        gt.start()
+        time.sleep(0.3)
+        if not gt.is_alive():
+            return "setup-failed", "%s did not park behind the re-key" % gated
+        t0 = time.time()
+        cell.end(ending)
+        inactive = _wait_inactive(x, WATCH)
+        limit = t0 + WATCH
+        for t in watchers + [gt]:
+            t.join(max(0.0, limit - time.time()))
+        stuck = [n for n, t in zip(names, watchers) if t.is_alive()]
+        if gt.is_alive():
+            stuck.append("%s (the parked call)" % gated)
+        if not inactive:
+            stuck.insert(0, "transport.is_active() still True")
+        if stuck:
+            return "hang", "%ss after %s with a re-key in flight (%s) and a thread parked in %s: %s" % (
+                WATCH, ending, state, gated, "; ".join(stuck))
+        return "returned", "all back %.2fs after the loss" % (time.time() - t0)
+    finally:
+        cell.cleanup()
+
+
+def part_rekey(ctx):
+    rng = ctx.rng
+    cells = [(g, e, st, r) for g in GATED for e in ENDINGS for st in REKEY_STATES for r in ("std", "swap")]
+    if not ctx.thorough:
+        # every gated call x every ending; re-key state and side rotate with the seed
+        pick = []
+        for g in GATED:
+            for e in ENDINGS:
+                pick.append((g, e, rng.choice(REKEY_STATES), rng.choice(("std", "swap"))))
+        cells = pick
+    results = {}
+    lock = threading.Lock()
+    todo = list(cells)
+
+    def worker():
+        while True:
+            with lock:
+                if not todo:
+                    return
+                c = todo.pop()
+            r = run_rekey_cell(*c)
+            if r[0] != "returned":
+                r2 = run_rekey_cell(*c)          # believe it only when it repeats
+                if r2[0] != r[0]:
+                    with lock:
+                        ctx.notes.append("flaky re-key cell %s: first %s then %s" % (c, r, r2))
+                    r = r2 if r2[0] == "returned" else r
+            with lock:
+                results[c] = r
+
+    t0 = time.time()
+    ws = [threading.Thread(target=worker, daemon=True) for _ in range(4)]
+    for w in ws:
+        w.start()
+    for w in ws:
+        w.join()
+    ctx.log("re-key matrix: %d cells in %.1fs" % (len(cells), time.time() - t0))
+    nsetup = 0
+    for c in sorted(results):
+        gated, ending, state, role = c
+        out, detail = results[c]
+        ctx.count(("rekey",) + c, kind="rekey-%s-%s" % (gated, ending))
+        if out == "setup-failed":
+            nsetup += 1
+            ctx.notes.append("re-key cell %s could not be set up: %s" % (c, detail))
+        elif out == "hang":
+            ctx.fail("hang-during-rekey:%s:%s" % (gated, ending),
+                     "connection ended by %s while a key re-exchange was in flight and a thread was parked in %s: "
+                     "the transport does not become inactive / blocked calls do not return" % (ending, gated),
+                     case={"gated_call": gated, "ending": ending, "rekey": state, "role": role,
+                           "side": side_of("recv", role)},
+                     expected="transport inactive, recv/accept and the parked call back within %ss" % WATCH,
+                     observed=detail)
+    if nsetup > max(2, len(results) // 5):
+        ctx.disagree("too many re-key cells could not be set up (%d)" % nsetup)
+    if results:
+        c = sorted(results)[0]
+        ctx.sample({"rekey-matrix": {"cell": c, "impl": results[c]}})
+
+
 def observe_rekey_during_global_request():
     """first request answered (global_response = that Message); the peer then ignores a second
     wait=True request; the PEER re-keys; what does the pending global_request do?"""
@@ -1076,7 +1204,11 @@ def run(ctx):
                 "the connection where the API exists there; channel APIs additionally from the channel pre-states "
                 "{peer EOF received, EOF sent, both} (blocked before and called after) and with the documented "
                 "non-default channel options {fileno() called before = event attached to the in-buffers, "
-                "combine_stderr on}; recv is parked by three threads (recv x2 + recv_stderr) on fresh in-process Transport pairs (quick: every API x ending and API x phase once + all accept and forced-interleaving cells; "
+                "combine_stderr on}; recv is parked by three threads (recv x2 + recv_stderr).  D: every ending "
+                "while a key re-exchange is in flight (own KEXINIT sent / peer KEXINIT received, never completed) "
+                "and a user thread is parked in a clear_to_send-gated call (shutdown_write, send, close, channel "
+                "request, send_ignore): transport inactive, recv on that and on another channel, accept and the "
+                "parked call all back within the watchdog (clear_to_send_timeout stays 60 s) on fresh in-process Transport pairs (quick: every API x ending and API x phase once + all accept and forced-interleaving cells; "
                 "thorough: all cells), watchdog %ss, one retry before a hang is believed.  A case is non-trivial "
                 "when distinct and its script / cell is not empty." % WATCH)
     ctx.trusted += ["translator gen/c13.py (AST -> wake graph), fail-closed on unrecognised statements",
@@ -1091,11 +1223,22 @@ def run(ctx):
     part_read_all(ctx, 400 * scale)
     part_proxy(ctx, 250 * scale)
     part_matrix(ctx)
+    part_rekey(ctx)
 
 
 def replay(ctx, rep):
     case = rep.get("case") or {}
-    if "api" in case and "phase" in case:
+    if "gated_call" in case:
+        ctx.prove()
+        c = (case["gated_call"], case["ending"], case["rekey"], case.get("role", "std"))
+        r = run_rekey_cell(*c)
+        if r[0] == "hang":
+            r = run_rekey_cell(*c)
+        ctx.count(c)
+        ctx.count(("replay", c))
+        if r[0] == "hang":
+            ctx.fail(rep["key"], rep["what"], case=case, expected=rep.get("expected"), observed=r[1])
+    elif "api" in case and "phase" in case:
         ctx.prove()
         c = (case["api"], case["ending"], case["phase"], bool(case.get("timeout")), case.get("role", "std"),
              case.get("channel_pre_state", "fresh"), case.get("channel_option", "plain"))
